@@ -569,6 +569,24 @@ func c06Run(c fw.Case, env *fw.Env) fw.Result {
 			}
 			r.NT = append(r.NT, fw.Hash("pre", s.Blob, s.Chunk))
 			r.Counters["preconnack_streams"]++
+			if s.Listed && !s.Truncate {
+				// the same malformed packet right behind an accepting CONNACK (one buffer): whether or not Connect has
+				// marked the connection active yet, the link must end with an observable error
+				sig, det, trc := c06BehindConnack(s)
+				r.Evals++
+				if sig == "inconclusive" {
+					r.Counters["inconclusive_runs"]++
+				} else if sig != "" {
+					r.Verdict = fw.Violated
+					r.Sig = sig + ":" + sigClass(s.Class)
+					r.Detail = det
+					r.Trace = trc
+					r.Sample = s
+					return r
+				} else {
+					r.Counters["malformed_right_behind_connack"]++
+				}
+			}
 		}
 		if len(list) > 0 {
 			r.Sample = map[string]interface{}{"mode": "preconnack", "example_blob": list[0].Blob, "class": list[0].Class}
@@ -838,4 +856,58 @@ func c06Pending(rng *rand.Rand) (sig, detail string, trace []string, shape strin
 		}
 	}
 	return "", "", nil, shape
+}
+
+// c06BehindConnack: CONNACK(0) and a malformed packet arrive in one buffer.
+func c06BehindConnack(s c06Stream) (sig, detail string, trace []string) {
+	blob, _ := hex.DecodeString(s.Blob)
+	tr := memnet.NewTrace()
+	peer := &scen.Script{Tr: tr}
+	peer.OnPkt = func(cn *memnet.Conn, p *mqttref.Packet, raw []byte) bool {
+		if p != nil && p.Type == mqttref.CONNECT {
+			cn.SendLocked(mqttref.EncConnAck(false, 0), "")
+			cn.SendLocked(blob, "hostile-right-behind-connack:"+s.Class)
+		}
+		return false
+	}
+	cli, conn := scen.NewBase(tr, peer)
+	conn.Chunk = s.Chunk
+	conn.LateWriteOK = true
+	ctx, cancel := context.WithTimeout(context.Background(), scen.Watchdog)
+	defer cancel()
+	_, cerr := cli.Connect(ctx, "verif")
+	defer cli.Close()
+	fail := func(sg, f string, a ...interface{}) (string, string, []string) {
+		return sg, fmt.Sprintf(f, a...) + fmt.Sprintf("\nblob=%s class=%s chunk=%d (Connect returned %v)", s.Blob, s.Class, s.Chunk, cerr), tr.Dump(30)
+	}
+	if scen.IsDeadline(cerr) {
+		return "inconclusive", "Connect watchdog", nil
+	}
+	select {
+	case <-cli.Done():
+	case <-time.After(scen.Watchdog):
+		if scen.CertifyStuck(tr, conn) {
+			return fail("link-survives-malformed-packet", "a malformed packet right behind CONNACK did not end the connection")
+		}
+		return "inconclusive", "Done watchdog", nil
+	}
+	// let the Closed callback be delivered
+	closedErr, closedSeen := "", false
+	for i := 0; i < 2000 && !closedSeen; i++ {
+		for _, e := range tr.Snapshot() {
+			if e.Kind == memnet.KState && e.S == "Closed" {
+				closedSeen, closedErr = true, e.Err
+			}
+		}
+		if !closedSeen {
+			time.Sleep(100 * time.Microsecond)
+		}
+	}
+	if cli.Err() == nil {
+		return fail("malformed-packet-without-error", "the connection ended on a malformed packet right behind CONNACK but Err() is nil")
+	}
+	if closedSeen && closedErr == "" {
+		return fail("malformed-packet-without-error", "the connection ended on a malformed packet right behind CONNACK but the Closed callback carried no error")
+	}
+	return "", "", nil
 }
